@@ -16,7 +16,7 @@ _tmpdir = None
 def _init_worker():
     global _tmpdir
     # lnn writes LNN_INFO.log into the cwd: work in a private temporary directory
-    _tmpdir = tempfile.mkdtemp(prefix="lnnverif_")
+    _tmpdir = tempfile.mkdtemp(prefix=f"lnnverif_{os.getppid()}_")
     os.chdir(_tmpdir)
     if HERE not in sys.path:
         sys.path.insert(0, HERE)
@@ -42,9 +42,10 @@ def run_cases(modname, fname, cases, jobs=None, chunksize=4):
     ctx = mp.get_context("fork")
     with ctx.Pool(jobs, initializer=_init_worker) as pool:
         res = pool.map(_call, [(modname, fname, c) for c in cases], chunksize=chunksize)
-    # workers are killed by Pool.__exit__ without running atexit: sweep their temp dirs
+    # workers are killed by Pool.__exit__ without running atexit: sweep their temp dirs (only this process' workers:
+    # checks of other properties may be running at the same time)
     for d in os.listdir(tempfile.gettempdir()):
-        if d.startswith("lnnverif_"):
+        if d.startswith(f"lnnverif_{os.getpid()}_"):
             shutil.rmtree(os.path.join(tempfile.gettempdir(), d), ignore_errors=True)
     return res
 
